@@ -518,10 +518,32 @@ func racePrograms() []sig.RaceProgram {
 		return sig.RaceProgram{Name: name, Groups: groups, Clients: 3, Setup: setup, MaxPreempt: core.Pick(2, 3),
 			Names: names, Threads: ts, Final: converged}
 	}
-	return []sig.RaceProgram{
+	ps := []sig.RaceProgram{
 		mk("join-vs-leave", two, []string{"c2:join", "c1:leave"},
 			func(w *sig.World) { w.Send(2, sig.Join("g", "carol", "pc")); drain(w, 2) },
 			func(w *sig.World) { w.Send(1, leave) }),
+		// a member leaves and rejoins the same group on one connection without
+		// its loop getting to its queue in between, while another client joins and leaves
+		mk("leave+rejoin-vs-join+leave", two, []string{"c1:leave,join", "c2:join,leave"},
+			func(w *sig.World) { w.Send(1, leave); w.Send(1, sig.Join("g", "bob", "pb")) },
+			func(w *sig.World) { w.Send(2, sig.Join("g", "carol", "pc")); w.Send(2, leave) }),
+		// the same with the second halves as threads of their own that wait
+		// for their turn (a wait is not a preemption): c2 leaves once c1 is
+		// out, c1 rejoins once c2 has left; c1's loop never runs in between
+		mk("leave-vs-join-then-leave-then-rejoin", two, []string{"c1:leave", "c2:join", "c2:leave(after c1 is out)", "c1:rejoin(after c2 left)"},
+			func(w *sig.World) { w.Send(1, leave) },
+			func(w *sig.World) { w.Send(2, sig.Join("g", "carol", "pc")) },
+			func(w *sig.World) {
+				vrt.WaitUntil("c1 out, c2 in", func() bool { return w.Clients[1].V.Group() == nil && w.Clients[2].V.Group() != nil })
+				w.Send(2, leave)
+				w.Tick = 777 // c2 has been in and is out again
+			},
+			func(w *sig.World) {
+				vrt.WaitUntil("c1 out, c2 gone again", func() bool {
+					return w.Clients[1].V.Group() == nil && w.Tick == 777
+				})
+				w.Send(1, sig.Join("g", "bob", "pb"))
+			}),
 		mk("join-vs-disconnect-vs-drain", two, []string{"c2:join", "c1:disconnect", "c0:drain"},
 			func(w *sig.World) { w.Send(2, sig.Join("g", "carol", "pc")); drain(w, 2) },
 			func(w *sig.World) { w.Disconnect(1) },
@@ -547,6 +569,12 @@ func racePrograms() []sig.RaceProgram {
 			},
 			func(w *sig.World) { w.Send(2, sig.Join("g", "carol", "pc")); drain(w, 2) }),
 	}
+	for i := range ps {
+		if ps[i].Name == "leave-vs-join-then-leave-then-rejoin" {
+			ps[i].MaxPreempt = core.Pick(1, 2) // four threads: the waits do the ordering
+		}
+	}
+	return ps
 }
 
 func runRaces(res *core.Result, shard, shards int) {
